@@ -25,7 +25,9 @@ pub const IDS: [&[u8; 20]; 5] = [
     b"a1B2c3D4e5F6g7H8i9J0",
     b"9Z8y7X6w5V4u3T2s1R0q",
 ];
-pub const LENGTHS: [u64; 3] = [0, 1, 1 << 40];
+/// Total lengths. Those above i64::MAX can only be written as a multi-file torrent (one bencoded
+/// integer is an i64); 2^40 is also written in both forms.
+pub const LENGTHS: [u64; 11] = [0, 1, 1 << 40, (1 << 31) - 1, 1 << 32, (1 << 53) + 1, i64::MAX as u64, 1 << 63, (1 << 63) + 1, u64::MAX, (1 << 40) + 1];
 
 #[derive(Clone, Debug)]
 pub struct Case {
@@ -38,18 +40,31 @@ pub struct Case {
 }
 
 fn metainfo(url: &str, total: u64, hash: [u8; 20]) -> Metainfo {
-    let doc = refb::enc(&refb::dict(vec![
-        ("announce", refb::s(url)),
-        (
-            "info",
-            refb::dict(vec![
-                ("length", V::Int(total as i64)),
-                ("name", refb::s("n")),
-                ("piece length", V::Int(16384)),
-                ("pieces", V::Str(vec![7; 20])),
-            ]),
-        ),
-    ]));
+    // multi-file form for totals that do not fit one integer, and for 2^40 + 1
+    let multi = total > i64::MAX as u64 || total == (1 << 40) + 1;
+    let mut info = vec![];
+    if multi {
+        let mut left = total;
+        let mut files = vec![];
+        let mut k = 0;
+        while left > 0 || files.is_empty() {
+            let part = left.min(if total > i64::MAX as u64 { i64::MAX as u64 } else { 1 << 39 });
+            files.push(refb::dict(vec![("length", V::Int(part as i64)), ("path", refb::s(&format!("f{}", k)))]));
+            left -= part;
+            k += 1;
+        }
+        info.push(("files", V::List(files)));
+    } else {
+        info.push(("length", V::Int(total as i64)));
+    }
+    info.push(("name", refb::s("n")));
+    info.push(("piece length", V::Int(16384)));
+    info.push(("pieces", V::Str(vec![7; 20])));
+    let doc = refb::enc(&refb::dict(vec![("announce", refb::s(url)), ("info", refb::dict(info))]));
+    metainfo_from(doc, hash)
+}
+
+fn metainfo_from(doc: Vec<u8>, hash: [u8; 20]) -> Metainfo {
     Metainfo::from_bencode(&doc).expect("harness torrent must parse").verif_with_info_hash(hash)
 }
 
@@ -273,7 +288,7 @@ pub fn run(ctx: &Ctx) -> Outcome {
     let mut o = Outcome::new("exploration");
     o.set("evaluations", json!(cases.len()));
     o.set("distinct_nontrivial", json!(distinct.len()));
-    o.set("rule", json!("info-hash = a fixed 20-byte pattern with every byte value 0..=255 substituted at the listed positions, plus all-equal hashes; x 5 announce URLs (plain, port+path, with one / two query parameters, trailing '?') x 5 alphanumeric peer ids x total lengths {0,1,2^40} (quick: ids/lengths only vary for the first URL). Plus retries: every word of <= 2 (thorough 3) failed announces (refused / HTTP 500 / garbage / failure reason) before the good reply for every URL, id and length, and one failure for every hash; EVERY request of a case is judged, not only the first. Each case runs the real TrackerClient::run over the HTTP seam (paused clock, so the 1 s retry delay is virtual); distinct_nontrivial = number of distinct request URLs captured."));
+    o.set("rule", json!("info-hash = a fixed 20-byte pattern with every byte value 0..=255 substituted at the listed positions, plus all-equal hashes; x 5 announce URLs (plain, port+path, with one / two query parameters, trailing '?') x 5 alphanumeric peer ids x total lengths {0, 1, 2^40, 2^31-1, 2^32, 2^53+1, 2^63-1, 2^63, 2^63+1, 2^64-1, 2^40+1}, the last four as multi-file torrents (quick: ids/lengths only vary for the first URL). Plus retries: every word of <= 2 (thorough 3) failed announces (refused / HTTP 500 / garbage / failure reason) before the good reply for every URL, id and length, and one failure for every hash; EVERY request of a case is judged, not only the first. Each case runs the real TrackerClient::run over the HTTP seam (paused clock, so the 1 s retry delay is virtual); distinct_nontrivial = number of distinct request URLs captured."));
     o.set("hashes", json!(hs.len()));
     let picks = ctx.seeded_pick(cases.len(), 4);
     o.set("samples", Value::Array(picks.iter().map(|i| json!({"announce": URLS[cases[*i].url], "hash": core::hex(&cases[*i].hash), "request": res[*i].0})).collect()));
